@@ -134,12 +134,36 @@ def value_key(v):
     elif hasattr(v, "cats"):
         dec = tuple(str(c) for c in v.cats)
     elif isinstance(v, vRecur):
-        dec = tuple((k, tuple(str(i) for i in (x if isinstance(x, (list, tuple)) else [x]))) for k, x in v.items())
+        # exact shape (scalar vs list) matters for purity checks
+        dec = tuple((k, type(x).__name__, tuple(str(i) for i in (x if isinstance(x, (list, tuple)) else [x]))) for k, x in v.items())
     elif isinstance(v, (str, int, float)):
         dec = (type(v).__mro__[-2].__name__, str(v)) if not isinstance(v, str) else ("str", str(v))
     else:
         dec = None
     return (type(v).__name__, pk, wire, dec)
+
+
+def snapshot(c):
+    """Observable state of a tree WITHOUT calling any rendering method (for purity checks): classes, params, raw attributes."""
+    props = []
+    for k in c.keys():
+        vals = c[k]
+        many = isinstance(vals, list)
+        row = []
+        for v in (vals if many else [vals]):
+            params = getattr(v, "params", None)
+            pk = tuple((str(pk_), repr(pv)) for pk_, pv in params.items()) if params is not None else None
+            if isinstance(v, dict):
+                raw = ("dict", tuple((str(a), repr(b)) for a, b in v.items()))
+            elif isinstance(v, (str, int, float)):
+                raw = ("scalar", repr(str(v)) if isinstance(v, str) else repr(v))
+            else:
+                raw = ("attrs", tuple(sorted((a, repr(b) if not hasattr(b, "dt") else repr(b.dt)) for a, b in vars(v).items() if a != "params")))
+                if hasattr(v, "dts"):
+                    raw += (tuple((repr(d.dt), tuple((str(a), repr(b)) for a, b in d.params.items())) for d in v.dts),)
+            row.append((type(v).__name__, pk, raw))
+        props.append((str(k), many, tuple(row)))
+    return (c.name, tuple(props), tuple(snapshot(s) for s in c.subcomponents), tuple(c.errors))
 
 
 def extract(c):
